@@ -1,4 +1,4 @@
-import EinxModel.Proofs.Optimize
+import EinxModel.Proofs.OptimizeSound
 /-!
 C05 — graph optimisation never changes what an operation computes, and terminates.
 
@@ -11,6 +11,14 @@ tensor content and every meaning of the elementary functions), every rank, shape
 A rewrite is sound when the rewritten program yields the same result whenever the original program runs;
 registers are appended by every instruction, so "the operand of the second instruction is the result of
 the first" is written `regs.length`.
+
+Whole passes: `Term.evalWith` / `Term.eval` (Optimize/Rules.lean) give the term model of the six patterns the
+semantics of the same executor (every node is one `step` = one instruction of `evalProg` on the values of its
+operands); `rule_sound` / `rewrites_sound` prove that the patterns applied anywhere, in any order, preserve what a
+term computes, `rewrite_sound` that one pass of the model does, `optimize_sound` that the optimiser loop
+does, `optimize_sound_fixpoint` adds that the result is a fixed point of the pass.  Sharing: `rebuild_preserves`
+/ `optimize_lets_sound` for graphs given as lists of let-bound terms (a shared value is rewritten once, all
+consumers read the rewritten value), `unfold_sound` / `unfold_rewrite_sound` for their tree unfolding.
 -/
 namespace Einx.Optimize
 open Einx Einx.IR
@@ -191,6 +199,173 @@ theorem optimize_fixpoint {G : Type} (P : PassModel G) (g : G) :
     · simp only [hc, Bool.false_eq_true, if_false]
       exact ⟨g, by simpa using hc, rfl⟩
 
+/-! ## Whole passes preserve what a graph computes (term model with evaluation semantics)
+
+`Term.evalWith A O inputs t` runs the term over the element algebra `A` with the IR executor: every node is one
+`step` (= one instruction of `IR.evalProg`, `step_iff_evalProg`) on the register file that holds the values of
+its operands; the calls the patterns never inspect (`op2 f`) mean `O f` -- any partial function of the two operand
+values whose results have the size their shapes say (`O.WF`).  `Term.eval A` is the instance in which they are
+elementwise numpy calls executed by `Instr.ewise` (`ewiseOp`, `ewiseOp_wf`), so that the whole term is executed by
+the primitive plans of IR/Prim.lean (`rewrite_sound_prim`, `optimize_sound_prim`, `rebuild_preserves_prim`).  The statements hold for every element algebra (every tensor content, every meaning of the
+elementary functions), every rank, shape, permutation and every nesting of nodes.  Inputs are tensors whose
+data have the size their shapes say (`hin`; the same hypothesis as in `equiv_sound`).
+
+Soundness is stated the way the rule theorems state it: *if the original term runs* (its traced shapes are
+true, every numpy call is valid), the rewritten term runs and yields the same tensor.  The converse direction
+is false and not wanted: a pass may remove a call that would have raised (`concatenate([x], axis)` with an
+invalid axis is removed by `SkipConcatenate`; witness below). -/
+
+/-- **rule_sound**: one application of a pattern at the root of a term -- the pattern's own test (`Extracted.*Noop`)
+and replacement (inner operand with the outer shape / with `Extracted.composePerm`) -- preserves what the term
+evaluates to.  These are the rule theorems above, on the one-register file `Term.evalWith` uses. -/
+theorem rule_sound {α : Type} (A : Alg α) (O : Op2 α) (hO : O.WF) (inputs : List (Tensor α))
+    (hin : ∀ x ∈ inputs, x.data.length = prod x.shape) {t t' : Term} (hr : Rule t t') :
+    ∀ v, t.evalWith A O inputs = .ok v → t'.evalWith A O inputs = .ok v := by
+  intro v h
+  cases hr with
+  | reshapeNoop x s hn => exact eval_reshape_noop A O inputs hO hin _ s v (reshapeNoop_sound _ _ hn) h
+  | reshapeMerge x s1 s => exact eval_reshape_merge A O inputs x x s1 s v (fun _ hw => hw) h
+  | transposeNoop x p hn => exact eval_transpose_noop A O inputs hO hin _ p v (transposeNoop_sound _ _ hn) h
+  | transposeMerge x p1 p2 p hc => exact eval_transpose_merge A O inputs x x p1 p2 p v hc (fun _ hw => hw) h
+  | broadcastNoop x s hn => exact eval_broadcastTo_noop A O inputs hO hin _ s v (broadcastNoop_sound _ _ hn) h
+  | concatNoop x axis hn => exact eval_concat1_noop A O inputs hO hin _ axis v h
+  | skipCast x => rwa [eval_cast] at h
+
+/-- **rewrites_sound**: patterns applied anywhere in a term, any number of times, in any order -- whatever the
+traversal strategy and whatever is memoised -- preserve what the term evaluates to. -/
+theorem rewrites_sound {α : Type} (A : Alg α) (O : Op2 α) (hO : O.WF) (inputs : List (Tensor α))
+    (hin : ∀ x ∈ inputs, x.data.length = prod x.shape) {t t' : Term} (hr : Rewrites t t') :
+    ∀ v, t.evalWith A O inputs = .ok v → t'.evalWith A O inputs = .ok v := by
+  induction hr with
+  | refl t => intro v h; exact h
+  | rule hr => exact rule_sound A O hO inputs hin hr
+  | trans _ _ ih1 ih2 => intro v h; exact ih2 v (ih1 v h)
+  | reshape s _ ih => intro v h; exact eval_reshape_congr A O inputs inputs _ _ s v ih h
+  | transpose p _ ih => intro v h; exact eval_transpose_congr A O inputs inputs _ _ p v ih h
+  | broadcastTo s _ ih => intro v h; exact eval_broadcastTo_congr A O inputs inputs _ _ s v ih h
+  | concat1 axis _ ih => intro v h; exact eval_concat1_congr A O inputs inputs _ _ axis v ih h
+  | concat2 axis _ _ ihx ihy => intro v h; exact eval_concat2_congr A O inputs inputs _ _ _ _ axis v ihx ihy h
+  | cast _ ih => intro v h; rw [eval_cast] at h ⊢; exact ih v h
+  | op2 f s _ _ ihx ihy => intro v h; exact eval_op2_congr A O inputs inputs f _ _ _ _ s v ihx ihy h
+
+/-- **rewrite_sound** (value form): whatever a term evaluates to, the term after one pass of the six patterns
+evaluates to the same tensor: the pass is a strategy of the rewrite system (`rewrite_rewrites`, by induction along the
+case analysis of `rewrite`). -/
+theorem rewrite_sound_ok {α : Type} (A : Alg α) (O : Op2 α) (hO : O.WF) (inputs : List (Tensor α))
+    (hin : ∀ x ∈ inputs, x.data.length = prod x.shape) (t : Term) :
+    ∀ v, t.evalWith A O inputs = .ok v → (rewrite t).1.evalWith A O inputs = .ok v :=
+  rewrites_sound A O hO inputs hin (rewrite_rewrites t)
+
+/-- **rewrite_sound** (`pass_sound`): whenever a term runs, the term after one pass computes the same. -/
+theorem rewrite_sound {α : Type} (A : Alg α) (O : Op2 α) (hO : O.WF) (inputs : List (Tensor α))
+    (hin : ∀ x ∈ inputs, x.data.length = prod x.shape) (t : Term) (hrun : ∃ v, t.evalWith A O inputs = .ok v) :
+    (rewrite t).1.evalWith A O inputs = t.evalWith A O inputs := by
+  obtain ⟨v, hv⟩ := hrun
+  rw [hv]
+  exact rewrite_sound_ok A O hO inputs hin t v hv
+
+/-- The traced shape of a term that runs is the shape of its value (so the patterns, which read traced
+shapes, read the run-time shapes), and values have the size their shapes say. -/
+theorem eval_shape_wf {α : Type} (A : Alg α) (O : Op2 α) (hO : O.WF) (inputs : List (Tensor α))
+    (hin : ∀ x ∈ inputs, x.data.length = prod x.shape) (t : Term) (v : Tensor α) (h : t.evalWith A O inputs = .ok v) :
+    v.shape = t.shape ∧ v.data.length = prod v.shape :=
+  ⟨eval_shape A O inputs t v h, eval_wf A O hO inputs hin t v h⟩
+
+/-- **optimize_sound**: the optimiser loop (passes repeated until one reports no change) returns a term that
+computes the same as the term it was given. -/
+theorem optimize_sound {α : Type} (A : Alg α) (O : Op2 α) (hO : O.WF) (inputs : List (Tensor α))
+    (hin : ∀ x ∈ inputs, x.data.length = prod x.shape) (t : Term) (hrun : ∃ v, t.evalWith A O inputs = .ok v) :
+    (termPassModel.fix t).1.evalWith A O inputs = t.evalWith A O inputs := by
+  obtain ⟨v, hv⟩ := hrun
+  rw [hv]
+  exact fix_invariant termPassModel (fun g => g.evalWith A O inputs = .ok v)
+    (fun g hg => rewrite_sound_ok A O hO inputs hin g v hg) t hv
+
+/-- **optimize_sound_fixpoint**: the optimiser model stops after at most `size t + 1` passes at a fixed point
+of the pass that computes the same function of the inputs as the original term -- for every element algebra
+and all well-formed inputs on which the original runs. -/
+theorem optimize_sound_fixpoint (t : Term) :
+    (termPassModel.fix t).2 ≤ t.size + 1 ∧
+    rewrite (termPassModel.fix t).1 = ((termPassModel.fix t).1, false) ∧
+    ∀ {α : Type} (A : Alg α) (O : Op2 α), O.WF → ∀ inputs : List (Tensor α), (∀ x ∈ inputs, x.data.length = prod x.shape) →
+      (∃ v, t.evalWith A O inputs = .ok v) → (termPassModel.fix t).1.evalWith A O inputs = t.evalWith A O inputs :=
+  ⟨(optimize_term_fixpoint t).1, (optimize_term_fixpoint t).2,
+    fun A O hO inputs hin hrun => optimize_sound A O hO inputs hin t hrun⟩
+
+/-! ### Sharing
+
+Real graphs are DAGs and `Optimizer._optimize` rebuilds them with the memo `id_to_newobj`: a node is rewritten
+once and every consumer receives the same rewritten object.  Model: a graph is a list of let-bound terms
+(`evalLets`: binding `k` is a term over `inputs ++ [values of bindings < k]`; a shared value is a binding read by
+several later leaves), a memoised pass is `rewriteLets` (every binding rewritten once; consumers keep reading it by
+position).  In this model patterns do not look through a binding; what the real patterns do across a shared node
+(e.g. merging a reshape into a *shared* inner reshape, which duplicates the inner node's operand edge) is covered
+by the tree unfolding (`unfold_rewrite_sound`): for pure nodes the unfolding computes the same values, and any
+number of passes on it is sound.  Nodes that mutate their operand in place are not pure; they are outside the term
+model and stay with the per-graph check (driver kind `equiv` and the node-by-node evaluator of tools/props/c05.py). -/
+
+/-- **rebuild_preserves**: if the bindings run, the bindings after one memoised pass run and produce the same
+register file: every binding -- in particular a value with two or more consumers -- is rewritten once, computes the
+same tensor, and all its consumers read that tensor. -/
+theorem rebuild_preserves {α : Type} (A : Alg α) (O : Op2 α) (hO : O.WF) (inputs : List (Tensor α))
+    (hin : ∀ x ∈ inputs, x.data.length = prod x.shape) (bs : List Term) (regs : List (Tensor α))
+    (h : evalLetsWith A O bs inputs = .ok regs) : evalLetsWith A O (rewriteLets bs).1 inputs = .ok regs :=
+  evalLets_map A O hO (fun b => (rewrite b).1) (fun env henv t v hv => rewrite_sound_ok A O hO env henv t v hv) bs inputs regs hin h
+
+/-- The memoised pass reports a change only when the total node count strictly decreased (termination of the loop
+on bindings). -/
+theorem rebuild_decreases (bs : List Term) :
+    ((rewriteLets bs).1.map Term.size).sum ≤ (bs.map Term.size).sum ∧
+      ((rewriteLets bs).2 = true → ((rewriteLets bs).1.map Term.size).sum < (bs.map Term.size).sum) :=
+  rewriteLets_facts bs
+
+/-- **optimize_lets_sound**: the optimiser loop on bindings returns bindings that produce the same register file,
+after at most (total node count + 1) passes. -/
+theorem optimize_lets_sound {α : Type} (A : Alg α) (O : Op2 α) (hO : O.WF) (inputs : List (Tensor α))
+    (hin : ∀ x ∈ inputs, x.data.length = prod x.shape) (bs : List Term) (regs : List (Tensor α))
+    (h : evalLetsWith A O bs inputs = .ok regs) :
+    evalLetsWith A O (letsPassModel.fix bs).1 inputs = .ok regs ∧ (letsPassModel.fix bs).2 ≤ (bs.map Term.size).sum + 1 :=
+  ⟨fix_invariant letsPassModel (fun g => evalLetsWith A O g inputs = .ok regs)
+      (fun g hg => rebuild_preserves A O hO inputs hin g regs hg) bs h,
+    (optimize_terminates letsPassModel bs).2⟩
+
+/-- **unfold_sound**: sharing is invisible to pure nodes -- the tree unfolding of binding `j` (every read of an
+earlier binding replaced by that binding's tree) computes, from the graph inputs alone, the value register
+`inputs.length + j` holds after running the bindings. -/
+theorem unfold_sound {α : Type} (A : Alg α) (O : Op2 α) (inputs : List (Tensor α)) (bs : List Term) (regs : List (Tensor α))
+    (h : evalLetsWith A O bs inputs = .ok regs) (j : Nat) (t : Term) (hj : (unfoldLets inputs.length bs [])[j]? = some t) :
+    ∃ v, regs[inputs.length + j]? = some v ∧ t.evalWith A O inputs = .ok v :=
+  unfoldLets_sound_aux A O inputs bs [] [] regs rfl (by intro j t hj; simp at hj) (by simpa using h) j t hj
+
+/-- **unfold_rewrite_sound**: the optimiser loop on the tree unfolding of a binding (where the patterns see through
+shared nodes) still computes the value of that binding. -/
+theorem unfold_rewrite_sound {α : Type} (A : Alg α) (O : Op2 α) (hO : O.WF) (inputs : List (Tensor α))
+    (hin : ∀ x ∈ inputs, x.data.length = prod x.shape) (bs : List Term) (regs : List (Tensor α))
+    (h : evalLetsWith A O bs inputs = .ok regs) (j : Nat) (t : Term) (hj : (unfoldLets inputs.length bs [])[j]? = some t) :
+    ∃ v, regs[inputs.length + j]? = some v ∧ (termPassModel.fix t).1.evalWith A O inputs = .ok v := by
+  obtain ⟨v, hv, he⟩ := unfold_sound A O inputs bs regs h j t hj
+  exact ⟨v, hv, by rw [optimize_sound A O hO inputs hin t ⟨v, he⟩]; exact he⟩
+
+/-! ### The instance executed entirely by the primitive plans (`Term.eval`, `evalLets`) -/
+
+/-- `rewrite_sound` for terms whose `op2` nodes are elementwise numpy calls (`Instr.ewise`). -/
+theorem rewrite_sound_prim {α : Type} (A : Alg α) (inputs : List (Tensor α))
+    (hin : ∀ x ∈ inputs, x.data.length = prod x.shape) (t : Term) (hrun : ∃ v, t.eval A inputs = .ok v) :
+    (rewrite t).1.eval A inputs = t.eval A inputs :=
+  rewrite_sound A (ewiseOp A) (ewiseOp_wf A) inputs hin t hrun
+
+/-- `optimize_sound` for that instance. -/
+theorem optimize_sound_prim {α : Type} (A : Alg α) (inputs : List (Tensor α))
+    (hin : ∀ x ∈ inputs, x.data.length = prod x.shape) (t : Term) (hrun : ∃ v, t.eval A inputs = .ok v) :
+    (termPassModel.fix t).1.eval A inputs = t.eval A inputs :=
+  optimize_sound A (ewiseOp A) (ewiseOp_wf A) inputs hin t hrun
+
+/-- `rebuild_preserves` for that instance. -/
+theorem rebuild_preserves_prim {α : Type} (A : Alg α) (inputs : List (Tensor α))
+    (hin : ∀ x ∈ inputs, x.data.length = prod x.shape) (bs : List Term) (regs : List (Tensor α))
+    (h : evalLets A bs inputs = .ok regs) : evalLets A (rewriteLets bs).1 inputs = .ok regs :=
+  rebuild_preserves A (ewiseOp A) (ewiseOp_wf A) inputs hin bs regs h
+
 /-! ## Symbolic equivalence of the graph before and after optimisation (driver kind `equiv`) -/
 
 /-- **equiv_sound**: if `equivProgs` accepts the programs translated from the unoptimised and the optimised
@@ -247,5 +422,76 @@ example : termPassModel.iter 5 (.op2 "add" (.transpose (.transpose (.input 0 [2,
 /-- A pass model that fires until a counter reaches 0: three passes fire from 3, the fourth reports unchanged. -/
 example : (PassModel.fix ⟨fun n => (n - 1, decide (0 < n)), id, by intro g h; simp at h ⊢; omega⟩ 3) = (0, 4) := by
   simp [fix_unfold]
+
+/-! ### Non-vacuity of the whole-pass theorems -/
+
+/-- `add(transpose(transpose(x, [1,0]), [1,0]), cast(reshape(reshape(y, [6]), [2,3])))` over the integers with
+`add` = sum of the arguments: the term runs on well-formed inputs (hypotheses of `rewrite_sound` met) ... -/
+example : (Term.op2 "add" (.transpose (.transpose (.input 0 [2, 3]) [1, 0]) [1, 0])
+      (.cast (.reshape (.reshape (.input 1 [3, 2]) [6]) [2, 3])) [2, 3]).eval (intAlgOf (fun _ args => args.sum) (-1))
+      [⟨[2, 3], [1, 2, 3, 4, 5, 6]⟩, ⟨[3, 2], [10, 20, 30, 40, 50, 60]⟩]
+    = .ok ⟨[2, 3], [11, 22, 33, 44, 55, 66]⟩ := by rfl
+
+/-- ... three patterns fire in the first pass (transposes merged, cast removed, reshapes merged) ... -/
+example : rewrite (Term.op2 "add" (.transpose (.transpose (.input 0 [2, 3]) [1, 0]) [1, 0])
+      (.cast (.reshape (.reshape (.input 1 [3, 2]) [6]) [2, 3])) [2, 3])
+    = (.op2 "add" (.transpose (.input 0 [2, 3]) [0, 1]) (.reshape (.input 1 [3, 2]) [2, 3]) [2, 3], true) := by rfl
+
+/-- ... and the loop ends with `add(x, reshape(y, [2,3]))`, which computes the same tensor. -/
+example : (termPassModel.iter 5 (Term.op2 "add" (.transpose (.transpose (.input 0 [2, 3]) [1, 0]) [1, 0])
+      (.cast (.reshape (.reshape (.input 1 [3, 2]) [6]) [2, 3])) [2, 3])).map (fun r =>
+        (r.1, r.1.eval (intAlgOf (fun _ args => args.sum) (-1))
+          [⟨[2, 3], [1, 2, 3, 4, 5, 6]⟩, ⟨[3, 2], [10, 20, 30, 40, 50, 60]⟩]))
+    = some (.op2 "add" (.input 0 [2, 3]) (.reshape (.input 1 [3, 2]) [2, 3]) [2, 3],
+        .ok ⟨[2, 3], [11, 22, 33, 44, 55, 66]⟩) := by rfl
+
+/-- The rewrite system covers what `rewrite` does not do in one pass: the merge through `_skip_id`
+(`reshape(cast(reshape(x, s1)), s)` becomes `reshape(x, s)`), for every `x`. -/
+example (x : Term) (s1 s : List Nat) : Rewrites (.reshape (.cast (.reshape x s1)) s) (.reshape x s) :=
+  .trans (.reshape s (.rule (.skipCast _))) (.rule (.reshapeMerge x s1 s))
+
+/-- `O.WF` is met by calls that are not elementwise, e.g. every `op2` read as `concatenate([a, b], axis=0)`. -/
+example {α : Type} (A : Alg α) : Op2.WF (fun _ a b => step A [a, b] (.concat [0, 1] 0)) :=
+  fun _ a b r h => (step_concat2_wf A a b 0 r h).2
+
+/-- A transpose that is not an involution is distinguished by the semantics (the data move). -/
+example : (Term.transpose (.input 0 [2, 3]) [1, 0]).eval (intAlgOf (fun _ args => args.sum) (-1))
+      [⟨[2, 3], [1, 2, 3, 4, 5, 6]⟩] = .ok ⟨[3, 2], [1, 4, 2, 5, 3, 6]⟩ := by rfl
+
+/-- The hypothesis "the original runs" is needed: `concatenate([x], axis=5)` raises, the pass removes the call. -/
+example : (Term.concat1 (.input 0 [2, 3]) 5).eval (intAlgOf (fun _ args => args.sum) (-1)) [⟨[2, 3], [1, 2, 3, 4, 5, 6]⟩]
+      = .error "concatenate: invalid axis" ∧
+    (rewrite (Term.concat1 (.input 0 [2, 3]) 5)).1.eval (intAlgOf (fun _ args => args.sum) (-1)) [⟨[2, 3], [1, 2, 3, 4, 5, 6]⟩]
+      = .ok ⟨[2, 3], [1, 2, 3, 4, 5, 6]⟩ := ⟨by rfl, by rfl⟩
+
+/-- A term with a false traced shape does not run (the premise of `rewrite_sound` excludes it). -/
+example : (Term.input 0 [3, 2]).eval (intAlgOf (fun _ args => args.sum) (-1)) [⟨[2, 3], [1, 2, 3, 4, 5, 6]⟩]
+    = .error "input 0: traced shape [3, 2], actual shape [2, 3]" := by rfl
+
+/-- Sharing: `y = reshape(reshape(x, [6]), [3,2])` is bound once (register 1) and read twice by `add(y, transpose(transpose(y)))`.
+The bindings run; the memoised pass rewrites the shared binding once (merge) and its consumer once (merge to a transpose that
+the next pass removes); the register file is the same. -/
+example : evalLets (intAlgOf (fun _ args => args.sum) (-1))
+      [.reshape (.reshape (.input 0 [2, 3]) [6]) [3, 2],
+       .op2 "add" (.input 1 [3, 2]) (.transpose (.transpose (.input 1 [3, 2]) [1, 0]) [1, 0]) [3, 2]]
+      [⟨[2, 3], [1, 2, 3, 4, 5, 6]⟩]
+    = .ok [⟨[2, 3], [1, 2, 3, 4, 5, 6]⟩, ⟨[3, 2], [1, 2, 3, 4, 5, 6]⟩, ⟨[3, 2], [2, 4, 6, 8, 10, 12]⟩] := by rfl
+
+example : rewriteLets [.reshape (.reshape (.input 0 [2, 3]) [6]) [3, 2],
+       .op2 "add" (.input 1 [3, 2]) (.transpose (.transpose (.input 1 [3, 2]) [1, 0]) [1, 0]) [3, 2]]
+    = ([.reshape (.input 0 [2, 3]) [3, 2], .op2 "add" (.input 1 [3, 2]) (.transpose (.input 1 [3, 2]) [0, 1]) [3, 2]], true) := by rfl
+
+example : evalLets (intAlgOf (fun _ args => args.sum) (-1))
+      (rewriteLets [.reshape (.reshape (.input 0 [2, 3]) [6]) [3, 2],
+       .op2 "add" (.input 1 [3, 2]) (.transpose (.transpose (.input 1 [3, 2]) [1, 0]) [1, 0]) [3, 2]]).1
+      [⟨[2, 3], [1, 2, 3, 4, 5, 6]⟩]
+    = .ok [⟨[2, 3], [1, 2, 3, 4, 5, 6]⟩, ⟨[3, 2], [1, 2, 3, 4, 5, 6]⟩, ⟨[3, 2], [2, 4, 6, 8, 10, 12]⟩] := by rfl
+
+/-- Its tree unfolding: the shared binding is substituted into both reads. -/
+example : unfoldLets 1 [.reshape (.reshape (.input 0 [2, 3]) [6]) [3, 2],
+       .op2 "add" (.input 1 [3, 2]) (.transpose (.transpose (.input 1 [3, 2]) [1, 0]) [1, 0]) [3, 2]] []
+    = [.reshape (.reshape (.input 0 [2, 3]) [6]) [3, 2],
+       .op2 "add" (.reshape (.reshape (.input 0 [2, 3]) [6]) [3, 2])
+         (.transpose (.transpose (.reshape (.reshape (.input 0 [2, 3]) [6]) [3, 2]) [1, 0]) [1, 0]) [3, 2]] := by rfl
 
 end Einx.Optimize
